@@ -8,7 +8,7 @@ from .c02 import collect
 
 
 def _work(mname):
-    return dis_rules.table_worker(mname, ("C04",))
+    return dis_rules.table_worker(mname, ("C04", "C02"))
 
 
 def run(rep, tier):
@@ -20,7 +20,11 @@ def run(rep, tier):
     rep.rule("R2", "is_jump_target is `offset in labels`, labels being the bound finder's result extended by the exception-table targets (3.11+)")
     rep.rule("R3", "the 3.13 inline-cache table used by the finders equals CPython 3.13's cache counts")
     rep.rule("R4", "3.11+: the exception-table targets that are added to the label set are decoded as CPython decodes them (varint and entry obligations of C17-R1/R2, restated)")
-    T = collect(rep, "C04", _work)
+    rep.rule("R5", "the label finders read their operands through an unpacker that yields the instruction's full operand (C02-R4: width, EXTENDED_ARG carry), restated")
+    from ..report import SubReport, merge_sub
+    sub2 = SubReport("C02")
+    T = collect(rep, "C04", _work, also={"C02": (sub2, ("R4",))})
+    merge_sub(rep, sub2, "R5", "C02")
     extra_rules(rep, T, tier)
 
 
